@@ -733,11 +733,33 @@ fn phase3(cap: &Capture, argument: &str, history: &[String], report: &mut Report
             model.begin_line();
         }
     }
-    // What the debugger accepted or rejected, in order
+    // What the debugger accepted or rejected, in order: an accepted command shows as the text
+    // it quotes (the echoed string), or as a bare command when it quotes none (exit)
+    let quoted = |text: &str| -> Option<String> {
+        let start = text.find('"')?;
+        let rest = &text[start + 1..];
+        let mut out = String::new();
+        let mut chars = rest.chars();
+        while let Some(c) = chars.next() {
+            match c {
+                '"' => return Some(out),
+                '\\' => {
+                    if let Some(n) = chars.next() {
+                        out.push(n);
+                    }
+                }
+                other => out.push(other),
+            }
+        }
+        None
+    };
     let mut got: Vec<String> = Vec::new();
     for e in &outcome.events {
         match e {
-            Event::Cmd(text) => got.push(text.clone()),
+            Event::Cmd(text) => got.push(match quoted(text) {
+                Some(s) => format!("echo:{}", s),
+                None => "<command>".to_string(),
+            }),
             Event::CmdError(_) => got.push("<rejected>".to_string()),
             _ => {}
         }
@@ -747,14 +769,14 @@ fn phase3(cap: &Capture, argument: &str, history: &[String], report: &mut Report
         .map(|line| {
             let mut words = line.splitn(2, ' ');
             match (words.next(), words.next()) {
-                (Some("echo"), Some(rest)) if !rest.trim().is_empty() => format!("Echo {{ string: {:?} }}", rest.trim()),
-                (Some("exit"), None) => "Exit".to_string(),
+                (Some("echo"), Some(rest)) if !rest.trim().is_empty() => format!("echo:{}", rest.trim()),
+                (Some("exit"), None) => "<command>".to_string(),
                 _ => "<rejected>".to_string(),
             }
         })
         .collect();
     // The session ends at the first `exit`
-    let cut = want.iter().position(|w| w == "Exit").map(|i| i + 1).unwrap_or(want.len());
+    let cut = want.iter().position(|w| w == "<command>").map(|i| i + 1).unwrap_or(want.len());
     let want = &want[..cut];
     if let End::Panic(msg) = &outcome.end {
         let short: String = msg.split(" @ ").next().unwrap_or("").chars().take(40).collect();
